@@ -4,7 +4,7 @@ use crate::report::*;
 use crate::tape::{run_tapes, Tape};
 use serde_json::{json, Value};
 
-const BUDGET: u64 = 200_000;
+pub const BUDGET: u64 = 200_000;
 
 /// a line of a session: statements that each either complete or fail without a lasting side effect
 #[derive(Clone, Debug, PartialEq)]
@@ -15,10 +15,10 @@ pub struct Line {
 }
 
 impl Line {
-    fn new(stmts: &[&str]) -> Line {
+    pub fn new(stmts: &[&str]) -> Line {
         Line { stmts: stmts.iter().map(|s| s.to_string()).collect(), cut: None }
     }
-    fn text(&self) -> String {
+    pub fn text(&self) -> String {
         self.stmts.join("; ")
     }
 }
@@ -74,11 +74,11 @@ pub fn check_session(lines: &[Line]) -> Result<SessionStats, Fail> {
     Err((class, session_json(lines), expected, observed))
 }
 
-fn session_json(lines: &[Line]) -> Value {
+pub fn session_json(lines: &[Line]) -> Value {
     json!({"session": lines.iter().map(|l| json!({"line": l.text(), "stmts": l.stmts, "cut": l.cut})).collect::<Vec<_>>()})
 }
 
-fn lines_from_json(v: &Value) -> Option<Vec<Line>> {
+pub fn lines_from_json(v: &Value) -> Option<Vec<Line>> {
     let mut out = Vec::new();
     for l in v.get("session")?.as_array()? {
         let stmts: Vec<String> = l.get("stmts")?.as_array()?.iter().filter_map(|x| x.as_str().map(|s| s.to_string())).collect();
